@@ -382,7 +382,8 @@ def gen_faults(rng, prof, config):
         item = {'kind': kind}
         if rng.random() < prof.get('p_trigger', 0.3):
             item['trigger'] = {'state': pick(rng, prof.get('trigger_states', TRIGGER_STATES)), 'inst': '*',
-                               'delay': round(rng.uniform(0.0, 4.0), 3), 'after': round(rng.uniform(0.0, t0), 3)}
+                               'delay': round(rng.uniform(0.0, 4.0), 3), 'after': round(rng.uniform(0.0, t0), 3),
+                               'before': t1 - 5.0}
             victim = pick(rng, ['$trigger', '$master', '$nonmaster', pick(rng, nicks)])
         else:
             item['t'] = round(rng.uniform(t0, t1), 3)
